@@ -247,13 +247,14 @@ PROPS["C30"] = dict(
 
 PROPS["C25"] = dict(
     module="c25", func="run", level="other", crates=["emmylua_ls", "emmylua_code_analysis", "emmylua_formatter"],
-    technique="taint (client-derived offsets) + CFG dominance of a bounds comparison at every rowan API with a range precondition; siblings cross-check; call-graph scoped audit of range-precondition sites (TextRange::new/at, TextSize subtraction, str range indexing) with ordering/char-boundary guard recognition",
+    technique="taint (client-derived offsets) + CFG dominance of a bounds comparison at every rowan API with a range precondition; siblings cross-check; call-graph scoped audit of range-precondition sites (TextRange::new/at, TextSize subtraction, str range indexing) with ordering/char-boundary guard recognition; bounds-fact derivation for index/slice sites in the same scope",
     text="Decides the precondition-guard clause: every handler that feeds a client-derived offset/range to a rowan API that panics "
          "on out-of-range input first compares it with the document's end (the idiom 12 handler files already use; the deviants "
          "are reported), and to_rowan_range rejects reversed ranges. R25c: every TextRange::new/at, TextSize subtraction and str range "
          "indexing reachable from the 19 position-taking handlers (emmylua_ls + emmylua_formatter) is ordered/char-boundary safe by a "
-         "recognised guard or by an audited entry.",
-    note="Semantic crashes deeper inside a handler are outside this rule. Trusted: rowan's documented preconditions, the source/guard tables in rules/c25.py.")
+         "recognised guard or by an audited entry. R25d: every Vec/slice index, split_at, remove/insert/drain in emmylua_ls code reachable "
+         "from those handlers is in bounds by a derived fact (51 of 66 today) or an audited entry.",
+    note="Semantic crashes deeper inside a handler (analysis-crate code, unwrap/expect) are outside this rule. Trusted: rowan's documented preconditions, the source/guard tables in rules/c25.py, tables/panic_audit.json.")
 
 PROPS["C40"] = dict(
     module="c40", func="run", level="other", crates=["schema_to_emmylua", "emmylua_parser"],
